@@ -323,8 +323,7 @@ def run(ctx):
         check_nack(ctx, rng, fe)
     check_pit_token(ctx, rng)
     for k in ('twin-delivery-with-effect', 'nack-delivered', 'token-reply', 'fragmented-envelope'):
-        if not ctx.events.get(k):
-            ctx.inconclusive(f'monitor {k} observed nothing')
+        ctx.need_event(k)
     ctx.assumptions = ['envelope headers are generated in ascending type order before the fragment',
                        'a Nack header without a reason is outside the statement (observation only, see C06)',
                        'PIT-token rules are judged on the current front-end; the legacy one documents no PIT-token support']
